@@ -243,6 +243,8 @@ def episode_child(check, base_seed, indices, selftest_n, sample_idx, wfd, system
             except BaseException:
                 agg.errors.append(f"case {idx}: harness exception\n{traceback.format_exc()}")
                 break
+        if hasattr(check, "teardown_process"):
+            check.teardown_process()
     except BaseException:
         agg.errors.append("episode: " + traceback.format_exc())
     data = agg.pack()
